@@ -6,6 +6,9 @@ package main
 // the implementation, and evaluates the property monitors on the implementation's own trace.
 
 import (
+	decodepay "github.com/nbd-wtf/ln-decodepay"
+	"encoding/json"
+	"regexp"
 	"math/big"
 	"github.com/elnosh/gonuts/mint/manager"
 	"context"
@@ -137,7 +140,7 @@ func NewHist(sink *Sink, rng *rand.Rand, scratch string, cfg cfgT, proj int64, p
 	h.install()
 	// the model starts from an empty store: the first item is the initial LoadMint
 	h.items = append(h.items, L(A(0), L(A(11), AU(uint64(cfg.fee0)), A(0))))
-	h.obs = append(h.obs, L(L(A(5)), h.snapshot()))
+	h.obs = append(h.obs, L(L(A(5)), h.snapshot(), LL(nil)))
 	return h
 }
 
@@ -619,7 +622,7 @@ func (h *Hist) exec(m mode, op S, f func() (any, error), okS func(any) S, learn 
 	snap := h.snapshot()
 	norm := h.snapshotN(true).String()
 	h.items = append(h.items, m.wrap(op))
-	h.obs = append(h.obs, L(r, snap))
+	h.obs = append(h.obs, L(r, snap, logS(out.log, out.crashed)))
 	h.stats["op="+opName(op)]++
 	if out.err != nil && m.kind == 0 && !h.lnFaulty {
 		h.stats["rejected="+opName(op)]++
@@ -648,9 +651,35 @@ func opName(op S) string {
 
 func (h *Hist) die() { h.dead = true }
 
+// callTags: the storage.MintDB / lightning.Client methods as numbered by coq/Mint/Trace.v (cmd_tag)
+var callTags = map[string]int64{
+	"GetPendingProofs": 1, "GetProofsUsed": 2, "GetPendingProofsByQuote": 3, "SaveProofs": 4, "AddPendingProofs": 5, "RemovePendingProofs": 6,
+	"GetBlindSignatures": 7, "GetBlindSignature": 8, "SaveBlindSignatures": 9,
+	"GetMintQuote": 10, "GetMintQuoteByPaymentHash": 11, "SaveMintQuote": 12, "UpdateMintQuoteState": 13,
+	"GetMeltQuote": 14, "GetMeltQuoteByPaymentRequest": 15, "SaveMeltQuote": 16, "UpdateMeltQuote": 17,
+	"GetIssuedEcash": 18, "GetRedeemedEcash": 19, "GetKeysets": 20, "SaveKeyset": 21, "UpdateKeysetActive": 22, "GetSeed": 23,
+	"LN.CreateInvoice": 30, "LN.InvoiceStatus": 31, "LN.SendPayment": 32, "LN.PayPartialAmount": 33, "LN.OutgoingPaymentStatus": 34,
+}
+
+// logS: the calls an operation made, in order; the call a crash cut hit was not made
+func logS(log []string, crashed bool) S {
+	if crashed && len(log) > 0 {
+		log = log[:len(log)-1]
+	}
+	var l []S
+	for _, n := range log {
+		t, ok := callTags[n]
+		if !ok {
+			t = -1
+		}
+		l = append(l, A(t))
+	}
+	return LL(l)
+}
+
 func (h *Hist) env(op S) {
 	h.items = append(h.items, L(A(0), op))
-	h.obs = append(h.obs, L(L(A(5)), h.snapshot()))
+	h.obs = append(h.obs, L(L(A(5)), h.snapshot(), LL(nil)))
 	h.lastSnap = h.snapshotN(true).String()
 }
 
@@ -673,7 +702,7 @@ func (h *Hist) OpRestart(fee uint, rotate bool) {
 	if panicked != nil {
 		// the mint does not come up: the history ends here (the model reports the same Panic leaf, with an empty snapshot)
 		h.items = append(h.items, L(A(0), op))
-		h.obs = append(h.obs, L(L(A(9)), L(LL(nil), LL(nil), LL(nil), LL(nil), LL(nil), LL(nil), LL(nil))))
+		h.obs = append(h.obs, L(L(A(9)), L(LL(nil), LL(nil), LL(nil), LL(nil), LL(nil), LL(nil), LL(nil)), LL(nil)))
 		h.sink.Note(fmt.Sprintf("LoadMint panicked: %v", panicked))
 		h.stats["op=restart-panicked"]++
 		return
@@ -681,7 +710,7 @@ func (h *Hist) OpRestart(fee uint, rotate bool) {
 	if err != nil {
 		r = h.failS(err)
 		h.items = append(h.items, L(A(0), op))
-		h.obs = append(h.obs, L(r, L(LL(nil), LL(nil), LL(nil), LL(nil), LL(nil), LL(nil), LL(nil))))
+		h.obs = append(h.obs, L(r, L(LL(nil), LL(nil), LL(nil), LL(nil), LL(nil), LL(nil), LL(nil)), LL(nil)))
 		h.sink.Note("LoadMint failed: " + err.Error())
 		return
 	}
@@ -691,7 +720,7 @@ func (h *Hist) OpRestart(fee uint, rotate bool) {
 	h.install()
 	snap := h.snapshot()
 	h.items = append(h.items, L(A(0), op))
-	h.obs = append(h.obs, L(L(A(5)), snap))
+	h.obs = append(h.obs, L(L(A(5)), snap, LL(nil)))
 	h.lastSnap = h.snapshotN(true).String()
 	h.stats["op=restart"]++
 }
@@ -906,14 +935,20 @@ func (h *Hist) consume(ins []inSpec, what string, op S) {
 	}
 }
 
+// feesFor: what the inputs owe, in true integers: ceil(sum of their keysets' input_fee_ppk / 1000), capped at the largest uint64
 func (h *Hist) feesFor(ins []inSpec) uint64 {
-	var ppk uint64
+	ppk := new(big.Int)
 	for _, i := range ins {
 		if i.ks >= 0 && int(i.ks) < len(h.tm.Order) {
-			ppk += uint64(h.tm.Keysets[h.tm.Order[i.ks]].InputFeePpk)
+			ppk.Add(ppk, new(big.Int).SetUint64(uint64(h.tm.Keysets[h.tm.Order[i.ks]].InputFeePpk)))
 		}
 	}
-	return (ppk + 999) / 1000
+	fee := new(big.Int).Add(ppk, big.NewInt(999))
+	fee.Div(fee, big.NewInt(1000))
+	if !fee.IsUint64() {
+		return ^uint64(0)
+	}
+	return fee.Uint64()
 }
 
 func (h *Hist) OpSwap(m mode, ins []inSpec, outs []outSpec) (cashu.BlindedSignatures, error) {
@@ -978,6 +1013,12 @@ func (h *Hist) OpMeltQuote(m mode, msat uint64, own *hMintQ, mppPart uint64, uni
 	}
 	if !decodes {
 		req = "lnbc1notaninvoice"
+	} else if bolt, err := decodepay.Decodepay(req); err != nil {
+		// what the invoice says is the environment's business: an invoice of the scripted backend for an absurd amount
+		// (>= 2^64 msat) does not decode at all
+		decodes = false
+	} else {
+		msat = uint64(bolt.MSatoshi)
 	}
 	q.req, q.hash, q.msat = req, hash, msat
 	r := nut05.PostMeltQuoteBolt11Request{Request: req, Unit: "sat"}
@@ -1291,43 +1332,171 @@ func (h *Hist) OpRotate(m mode, fee uint) {
 		func(any, opOutcome) { h.tm.deriveKeysets() })
 }
 
-// OpRotateAdmin: the rotation requested through the admin RPC (mint/manager), with the fee as the text the operator typed.
-// A fee that is not a decimal number between 0 and 2^63-1 (what the keysets table can hold) must be refused with nothing changed.
-func (h *Hist) OpRotateAdmin(feeText string) {
-	valid := false
-	var fee uint64
-	if v, ok := new(big.Int).SetString(feeText, 10); ok && feeText != "" && feeText[0] != '+' && feeText[0] != '-' &&
-		v.Sign() >= 0 && v.Cmp(new(big.Int).Lsh(big.NewInt(1), 63)) < 0 {
-		valid, fee = true, v.Uint64()
-	}
-	call := func() (any, error) {
-		_, jerr := manager.VerifServer(h.tm.M).VerifProcess(manager.Request{JsonRPC: "2.0", Method: "rotate_keyset", Params: []string{feeText}, Id: 1})
-		if jerr != nil {
-			return nil, cashu.BuildCashuError(jerr.Message, cashu.StandardErrCode)
+// ---------------- the admin RPC (mint/manager) ----------------
+
+var decimalNumeral = regexp.MustCompile(`^[+-]?[0-9]+$`)
+
+type adminReq struct {
+	method string   // issued_ecash, redeemed_ecash, total_balance, list_keysets, rotate_keyset, or anything else
+	ks     *int64   // keyset handle parameter (-7: an id the mint does not know)
+	fee    *string  // fee text parameter of rotate_keyset
+}
+
+func (h *Hist) adminReqS(r adminReq) (S, []string) {
+	var params []string
+	ksS := L()
+	if r.ks != nil {
+		if *r.ks == -7 {
+			params = []string{"00ffffffffffffff"}
+		} else {
+			params = []string{h.ksId(*r.ks)}
 		}
-		return nil, nil
+		ksS = L(A(*r.ks))
 	}
-	h.stats["op=rotate-admin"]++
-	if valid {
-		op := L(A(10), AU(fee))
-		h.exec(mode{}, op, call, func(any) S { return L(A(5)) }, func(any, opOutcome) { h.tm.deriveKeysets() })
-		return
-	}
-	before := h.snapshot().String()
-	_, err := call()
-	if err == nil {
-		h.tm.deriveKeysets()
-		h.sink.Violate("admin-rotate-accepted-invalid-fee", fmt.Sprintf("rotate_keyset accepted the fee %q", feeText), feeText, LL(h.items).String())
-		if v, ok := new(big.Int).SetString(feeText, 10); ok && v.Sign() >= 0 && v.BitLen() <= 64 {
-			// keep the model in step with what the mint did
-			h.items = append(h.items, L(A(0), L(A(10), AU(v.Uint64()))))
-			h.obs = append(h.obs, L(L(A(5)), h.snapshot()))
+	switch r.method {
+	case "issued_ecash":
+		return L(A(1), ksS), params
+	case "redeemed_ecash":
+		return L(A(2), ksS), params
+	case "total_balance":
+		return L(A(3)), params
+	case "list_keysets":
+		return L(A(4)), params
+	case "rotate_keyset":
+		if r.fee == nil {
+			return L(A(5), L()), nil
 		}
-		return
+		// FNum z: a decimal numeral with an optional sign (what strconv.Atoi reads, whatever its size); anything else is junk
+		if v, ok := new(big.Int).SetString(*r.fee, 10); ok && decimalNumeral.MatchString(*r.fee) && v.BitLen() <= 70 {
+			return L(A(5), L(L(A(0), AS(v.String())))), []string{*r.fee}
+		}
+		return L(A(5), L(L(A(1)))), []string{*r.fee}
 	}
-	if after := h.snapshot().String(); after != before {
-		h.sink.Violate("rejected-request-changed-state:rotate-admin", "a refused rotate_keyset changed the observable state", feeText, LL(h.items).String())
+	return L(A(6)), params
+}
+
+func (h *Hist) rowsS(m map[string]uint64) S {
+	type kv struct {
+		k int64
+		v uint64
 	}
+	var l []kv
+	for id, v := range m {
+		l = append(l, kv{h.ksHandle(id), v})
+	}
+	sort.Slice(l, func(i, j int) bool { return l[i].k < l[j].k })
+	var out []S
+	for _, x := range l {
+		out = append(out, L(A(x.k), AU(x.v)))
+	}
+	return LL(out)
+}
+
+// OpAdmin sends one request to the admin dispatcher and records the answer in the model's vocabulary.
+func (h *Hist) OpAdmin(r adminReq) {
+	reqS, params := h.adminReqS(r)
+	res, jerr := manager.VerifServer(h.tm.M).VerifProcess(manager.Request{JsonRPC: "2.0", Method: r.method, Params: params, Id: 7})
+	var out S
+	if jerr != nil {
+		cls := int64(6)
+		switch {
+		case jerr.Message == "invalid method":
+			cls = 1
+		case jerr.Message == "fee not included":
+			cls = 2
+		case jerr.Message == "invalid fee":
+			cls = 3
+		case jerr.Message == cashu.UnknownKeysetErr.Error():
+			cls = 4
+		case strings.Contains(jerr.Message, "unable to get") || strings.Contains(jerr.Message, "sql") || strings.Contains(jerr.Message, "database"):
+			cls = 5
+		}
+		out = L(A(0), A(int64(jerr.Code)), A(cls))
+	} else {
+		type ksAmt struct {
+			Id       string `json:"id"`
+			Issued   uint64 `json:"amount_issued"`
+			Redeemed uint64 `json:"amount_redeemed"`
+		}
+		type view struct {
+			Keysets       []ksAmt `json:"keysets"`
+			TotalIssued   uint64  `json:"total_issued"`
+			TotalRedeemed uint64  `json:"total_redeemed"`
+		}
+		toMap := func(v view, issued bool) map[string]uint64 {
+			m := map[string]uint64{}
+			for _, k := range v.Keysets {
+				if issued {
+					m[k.Id] = k.Issued
+				} else {
+					m[k.Id] = k.Redeemed
+				}
+			}
+			return m
+		}
+		switch r.method {
+		case "issued_ecash", "redeemed_ecash":
+			issued := r.method == "issued_ecash"
+			if r.ks != nil {
+				var one ksAmt
+				must(json.Unmarshal(res.Result, &one))
+				amt := one.Redeemed
+				if issued {
+					amt = one.Issued
+				}
+				out = L(A(1), A(h.ksHandle(one.Id)), AU(amt))
+			} else {
+				var v view
+				must(json.Unmarshal(res.Result, &v))
+				tot := v.TotalRedeemed
+				if issued {
+					tot = v.TotalIssued
+				}
+				out = L(A(2), h.rowsS(toMap(v, issued)), AU(tot))
+			}
+		case "total_balance":
+			var t struct {
+				I view   `json:"total_issued"`
+				R view   `json:"total_redeemed"`
+				C uint64 `json:"total_circulation"`
+			}
+			must(json.Unmarshal(res.Result, &t))
+			out = L(A(3), h.rowsS(toMap(t.I, true)), AU(t.I.TotalIssued), h.rowsS(toMap(t.R, false)), AU(t.R.TotalRedeemed), AU(t.C))
+		case "list_keysets":
+			var l struct {
+				Keysets []struct {
+					Id     string `json:"id"`
+					Active bool   `json:"active"`
+					Fee    uint64 `json:"input_fee_ppk"`
+				} `json:"keysets"`
+			}
+			must(json.Unmarshal(res.Result, &l))
+			sort.Slice(l.Keysets, func(i, j int) bool { return h.ksHandle(l.Keysets[i].Id) < h.ksHandle(l.Keysets[j].Id) })
+			var ks []S
+			for _, k := range l.Keysets {
+				ks = append(ks, L(A(h.ksHandle(k.Id)), AU(k.Fee), AB(k.Active)))
+			}
+			out = L(A(4), LL(ks))
+		case "rotate_keyset":
+			h.tm.deriveKeysets()
+			var k struct {
+				Id          string `json:"id"`
+				Active      bool   `json:"active"`
+				InputFeePpk uint64 `json:"input_fee_ppk"`
+			}
+			must(json.Unmarshal(res.Result, &k))
+			out = L(A(5), A(h.ksHandle(k.Id)), AU(k.InputFeePpk), AB(k.Active))
+		default:
+			out = L(A(7))
+		}
+	}
+	h.items = append(h.items, L(A(5), reqS))
+	h.obs = append(h.obs, L(out, h.snapshot()))
+	h.stats["op=admin:"+r.method]++
+	if jerr != nil {
+		h.stats["rejected=admin:"+r.method]++
+	}
+	h.lastSnap = h.snapshotN(true).String()
 }
 
 func (h *Hist) OpWatcher(m mode, q *hMintQ) {
